@@ -23,6 +23,7 @@ struct Lit {
 
 static std::string ws(Src &s, int maxn) { std::string w; int n = (int) s.weighted({5, 3, 1, 1}); if (n > maxn) n = maxn; for (int i = 0; i < n; i++) w += s.prob(1, 4) ? '\t' : ' '; return w; }
 
+static uint64_t g_exclF1 = 0;
 static void genDecimal(Src &s, Lit &l, bool integerOnly, __int128 lo, __int128 hi) {
     std::string t, c;
     if (integerOnly) {
@@ -68,9 +69,10 @@ static void genDecimal(Src &s, Lit &l, bool integerOnly, __int128 lo, __int128 h
         l.text = t; l.canon = t; l.boundary = true;
         return;
     }
-    // 1..25 digits as the property quantifies, and occasionally up to 52 so that the whole token approaches (but stays
-    // below) the 63 significant characters the white-space-squeezing conversion buffer of the library holds
-    int nd = s.prob(1, 12) ? (int) s.range(26, 52) : s.prob(1, 4) ? (int) s.range(16, 25) : (int) s.range(1, 15);
+    // 1..25 digits as the property quantifies, occasionally up to 52 so that the number approaches the 63 significant
+    // characters the white-space-squeezing conversion buffer of the library holds, and occasionally up to 200 (488.2 allows a
+    // mantissa of 255 characters): beyond 63 characters a number with inner white space is listed finding C04-F1
+    int nd = s.prob(1, 12) ? (s.prob(1, 4) ? (int) s.range(53, 200) : (int) s.range(26, 52)) : s.prob(1, 4) ? (int) s.range(16, 25) : (int) s.range(1, 15);
     l.digits = nd;
     auto digs = [&](int n) { std::string d; for (int i = 0; i < n; i++) d += (char) ('0' + s.range(0, 9)); return d; };
     switch (s.weighted({3, 1, 3, 2})) {
@@ -89,6 +91,7 @@ static void genDecimal(Src &s, Lit &l, bool integerOnly, __int128 lo, __int128 h
         t += w0 + e + w1 + sg + ed; c += e + sg + ed;
         if (!w0.empty() || !w1.empty()) l.innerWs = true;
     }
+    if (l.innerWs && c.size() >= 64 && knownActive("C04-F1")) { g_exclF1++; t = c; l.innerWs = false; }   // steer around the listed finding: same literal without the inner white space
     l.text = t; l.canon = c;
 }
 
@@ -199,6 +202,8 @@ static std::string body(Src &s, Ev &ev) {
     if (l.boundary) ev.label(l.reader == R_F32 ? "float-rounding-boundary" : "double-rounding-boundary");
     if (nt) ev.nt(hashStr(std::to_string((int) l.reader) + l.text));
     if (nt && ev.wantSample()) ev.sample(describe(l));
+    if (!ev.frozen) ev.excluded["C04-F1 number with inner white space and >= 64 non-blank characters (white space removed)"] = g_exclF1;
+    if (l.digits > 52) ev.label("mantissa-longer-than-52-digits");
     return m;
 }
 
